@@ -1090,10 +1090,15 @@ class Engine:
         """A module- or class-level constant; mutable ones (list, dict) carry their origin: the
         one object is shared by every use, so mutating it in place is a write outside any
         function's frame."""
-        v = const_to_v(c)
-        if isinstance(c, (list, dict)):
-            v = V(v.ty, v.t, origin=where)
-        return v
+        def tag(v, c, path):
+            # the object itself and every mutable object nested in it are shared
+            if isinstance(c, dict) and v.ty.kind == 'rec':
+                return V(v.ty, {k: tag(v.t[k], c[k], '%s[%r]' % (path, k)) for k in v.t},
+                         origin=path)
+            if isinstance(c, (list, dict)):
+                return V(v.ty, v.t, origin=path)
+            return v
+        return tag(const_to_v(c), c, where)
 
     def class_attr(self, st, cls, attr, recv, module=None):
         """Method or class constant, searching base classes in the real sources."""
